@@ -331,14 +331,21 @@ class BaseOperationRecorder:
         """
         pass
 
-    def stage_pywbem_args(self, method, **kwargs):
+    def stage_pywbem_args(self, _method=None, /, **kwargs):
         """
         Set requst method and all args.
         Normally called before the cmd is executed to record request
         parameters
+
+        The operation method name can be specified as a positional argument
+        or as a keyword argument named `method`. Pywbem specifies it as a
+        positional argument, because the keyword arguments of InvokeMethod()
+        are the input parameters of the CIM method, which may have any name.
         """
         # pylint: disable=attribute-defined-outside-init
-        self._pywbem_method = method
+        if _method is None:
+            _method = kwargs.pop('method')
+        self._pywbem_method = _method
         self._pywbem_args = kwargs
 
     def stage_pywbem_result(self, ret, exc):
@@ -566,7 +573,7 @@ class LogOperationRecorder(BaseOperationRecorder):
                     conn_data = conn_data[:max_len] + '...'
                 logger.debug('Connection:%s %s', self._conn_id, conn_data)
 
-    def stage_pywbem_args(self, method, **kwargs):
+    def stage_pywbem_args(self, _method=None, /, **kwargs):
         """
         Log request method and all args.
         Normally called before the cmd is executed to record request
@@ -576,6 +583,9 @@ class LogOperationRecorder(BaseOperationRecorder):
         response.
         """
         # pylint: disable=attribute-defined-outside-init
+        if _method is None:
+            _method = kwargs.pop('method')
+        method = _method
         self._pywbem_method = method
         if self.enabled and self.api_detail_level is not None and \
                 self.apilogger.isEnabledFor(logging.DEBUG):
